@@ -16,7 +16,7 @@ def run(tier, seed):
     rest.sort(key=lambda n: -SLICES.get(n, 1))                    # heavy ones first: balanced pool
     tasks = []
     for name in rest:
-        k = SLICES.get(name, 1)
+        k = SLICES.get(name, 1) * (1 if tier == 'quick' else 3 if name.startswith('quantiles') else 2)
         tasks += [(MOD, 'run_slice', (name, tier, i, k)) for i in range(k)]
     tasks += [(MOD, 'run_group', (small[i::2], tier)) for i in range(2)]
     obs = run_tasks(tasks)
